@@ -238,11 +238,9 @@ def propRtW (args : List String) (impl : String) : String :=
             else if (sq.1.zip f.2).all (fun (r, m) => recOK i.o.arch m r) then none else some "fail:message"
           bad.getD "ok"
 
-def kfRtW (args : List String) : String :=
-  match parseRt args with
-  | none => "-"
-  | some i =>
-    if i.o.compress && !(i.files.all fun f => tsMonoB i.o.arch 0 f.2) then "KF-C01-ts" else "-"
+/-- no known-finding class is left for the round trip: KF-C01-ts (compressed headers with timestamps that are
+not valid, unique and non-decreasing) is fixed in /repo, and `C01_wire_records` has no timestamp hypothesis -/
+def kfRtW (_args : List String) : String := "-"
 
 /-- C02 on the implementation: the bytes the real encoder wrote form a well-formed stream per the
 independent framing spec, one sequence per FIT value, and the header/CRC written back into the caller's
